@@ -75,6 +75,10 @@ func runC09(c *Ctx) {
 		r.Check(nGlob == 0, "C09.pure.no-package-state", c.P.Pos(fn.Pos()), "MnemonicToSeed, Mnemonic.String and ParseMnemonic touch %d package-level variables (a cache or shared buffer would make results depend on history)", nGlob)
 	}
 
+	// the validation gate is only as good as MnemonicToEntropy: its size, word and checksum obligations (C03) are re-decided here
+	reKey(c, "C03.", "C09.gate.validation.", func() { c03Decode(c) })
+	pureScan(c, "C09.pure.reachable", c.P.Func("pkg/bip39", "MnemonicToSeed"), c.P.Func("pkg/bip39", "ParseMnemonic"), c.P.Func("pkg/bip39", "Mnemonic.String"))
+
 	if f := c.fn("pkg/bip39", "Mnemonic.String"); f != nil {
 		b := ana.NewBuilder(c.P, f.Function)
 		for _, e := range ana.Exits(f.Function) {
